@@ -7,7 +7,7 @@
 (*              extra] (projection of the returned Track | error class)]    *)
 (*   "optype": [id, kind, hyph, back, member, admin] one row of the real    *)
 (*              operation-type registry                                     *)
-(* L1: Fidelity / ValidLoads / Rejection of TrackModel.tla on the recorded  *)
+(* L1: Fidelity / ValidLoads / Rejection / TargetAsWritten on the recorded   *)
 (*     outcome (a failing Rejection names the violated rules and, for       *)
 (*     "mixing", which timing attributes were combined);                    *)
 (* L2: the recorded outcome equals Code(f) - the transcription of the       *)
@@ -37,7 +37,7 @@ Check(it) ==
             o == it.out
             R == Resolve(F)
             V == ViolR(F, R)
-            l1 == UNION {Detail(cl, V, R) : cl \in {cl \in Clauses : ~Holds(cl, V, ExpectedR(R), o)}}
+            l1 == UNION {Detail(cl, V, R) : cl \in {cl \in Clauses : ~Holds(cl, V, R, o)}}
             c == CodeR(F, R, it.sel)
             l2 == /\ o.ok = c.ok
                   /\ o.kind = c.kind
